@@ -4,3 +4,4 @@ pub mod refmodel;
 pub mod gen;
 pub mod props;
 pub mod apollo;
+pub mod fuzzapi;
